@@ -7,12 +7,12 @@ import (
 	"context"
 	"errors"
 	"fmt"
-	"io"
 	"log"
 	"net"
 	"sort"
 	"strconv"
 	"strings"
+	"os"
 	"sync"
 	"time"
 
@@ -85,10 +85,11 @@ func vConfig(o vOpts) *config.Config {
 	}
 	c.MemberlistConfig = mc
 	c.BindAddr = "127.0.0.1"
-	c.LogOutput = io.Discard
-	c.Logger = log.New(io.Discard, "", 0)
-	c.LogLevel = "ERROR"
-	c.LogVerbosity = 1
+	c.LogOutput = vLogSink
+	c.Logger = log.New(vLogSink, "", 0)
+	// INFO at the default verbosity: the sink watches for "Node left" (see vLogSink); nothing is logged per operation
+	c.LogLevel = "INFO"
+	c.LogVerbosity = 2
 	c.LeaveTimeout = 300 * time.Millisecond
 	c.ReplicaCount = o.Replicas
 	c.ReadQuorum = o.RQ
@@ -142,11 +143,43 @@ func vConfig(o vOpts) *config.Config {
 	return c
 }
 
+// Every harness cluster gossips under its own memberlist label. Gossip keeps going to a departed member's address
+// for a while; on a busy machine that port may by then belong to a member of another cluster (of this or another
+// test process), and without labels the two clusters would merge - foreign members in a routing table are an
+// artifact of running many clusters on one host, not a behaviour of the code under test.
+var vLabels = struct {
+	sync.Mutex
+	byAddr map[string]string
+	n      int
+}{byAddr: map[string]string{}}
+
+// vLabelFor: the label of the cluster the peers belong to; a member without peers founds a cluster with a new label.
+func vLabelFor(peers []string) string {
+	vLabels.Lock()
+	defer vLabels.Unlock()
+	for _, p := range peers {
+		if l, ok := vLabels.byAddr[p]; ok {
+			return l
+		}
+	}
+	vLabels.n++
+	vMarkCase() // a founding member: the case builds its own cluster
+	return fmt.Sprintf("verif-%d-%d-%d", os.Getpid(), time.Now().UnixNano(), vLabels.n)
+}
+
+func vRegisterLabel(addr string, m *vMember) {
+	vLabels.Lock()
+	vLabels.byAddr[addr] = m.cfg.MemberlistConfig.Label
+	vLabels.Unlock()
+}
+
 // vStartMember starts one full member and waits until it is bootstrapped.
 func vStartMember(o vOpts, peers []string) (*vMember, error) {
 	var lastStartErr error
+	label := vLabelFor(peers)
 	for attempt := 0; attempt < 5; attempt++ {
 		c := vConfig(o)
+		c.MemberlistConfig.Label = label
 		port, err := testutil.GetFreePort()
 		if err != nil {
 			return nil, err
@@ -194,6 +227,7 @@ func vStartMember(o vOpts, peers []string) (*vMember, error) {
 		}
 		m := &vMember{db: db, cfg: c, alive: true}
 		m.name = net.JoinHostPort(c.BindAddr, strconv.Itoa(c.BindPort))
+		vMarkAlive(m.name, true)
 		m.emb = db.NewEmbeddedClient()
 		m.rc = redis.NewClient(&redis.Options{Addr: m.name, MaxRetries: -1, DialTimeout: 2 * time.Second, ReadTimeout: 10 * time.Second, PoolSize: 64})
 		return m, nil
@@ -214,7 +248,9 @@ func (cl *vCluster) live() []*vMember {
 func (cl *vCluster) memberlistAddrs() []string {
 	var peers []string
 	for _, m := range cl.live() {
-		peers = append(peers, m.db.rt.Discovery().LocalNode().Address())
+		addr := m.db.rt.Discovery().LocalNode().Address()
+		vRegisterLabel(addr, m)
+		peers = append(peers, addr)
 	}
 	return peers
 }
@@ -345,6 +381,7 @@ func (cl *vCluster) shutdown() {
 			continue
 		}
 		m.alive = false
+		vMarkAlive(m.name, false)
 		wg.Add(1)
 		go func(m *vMember) {
 			defer wg.Done()
@@ -364,7 +401,7 @@ func (cl *vCluster) clusterClient() (*ClusterClient, error) {
 	for _, m := range cl.live() {
 		addrs = append(addrs, m.name)
 	}
-	cc, err := NewClusterClient(addrs, WithLogger(log.New(io.Discard, "", 0)), WithRoutingTableFetchInterval(500*time.Millisecond))
+	cc, err := NewClusterClient(addrs, WithLogger(log.New(vLogSink, "", 0)), WithRoutingTableFetchInterval(500*time.Millisecond))
 	if err != nil {
 		return nil, fmt.Errorf("%w: cluster client: %v", errInconclusive, err)
 	}
@@ -442,9 +479,11 @@ func pooledCluster(o vOpts) (*vCluster, error) {
 	defer vPoolMu.Unlock()
 	if cl, ok := vPool[o.key()]; ok {
 		if cl.stableNow() {
+			vMarkCase()
 			return cl, nil
 		}
 		if err := cl.waitStable(5 * time.Second); err == nil {
+			vMarkCase()
 			return cl, nil
 		}
 		cl.shutdown()
@@ -463,6 +502,7 @@ func pooledCluster(o vOpts) (*vCluster, error) {
 		return nil, err
 	}
 	vPool[o.key()] = cl
+	vMarkCase()
 	return cl, nil
 }
 
@@ -527,6 +567,7 @@ func errClass(err error) string {
 // vStartMemberAsync creates a member and starts it in the background; ready() tells when it is bootstrapped.
 func vStartMemberAsync(o vOpts, peers []string) (*vMember, error) {
 	c := vConfig(o)
+	c.MemberlistConfig.Label = vLabelFor(peers)
 	port, err := testutil.GetFreePort()
 	if err != nil {
 		return nil, err
@@ -546,6 +587,7 @@ func vStartMemberAsync(o vOpts, peers []string) (*vMember, error) {
 	go func() { _ = db.Start() }()
 	m := &vMember{db: db, cfg: c, alive: true}
 	m.name = net.JoinHostPort(c.BindAddr, strconv.Itoa(c.BindPort))
+	vMarkAlive(m.name, true)
 	m.emb = db.NewEmbeddedClient()
 	m.rc = redis.NewClient(&redis.Options{Addr: m.name, MaxRetries: -1, DialTimeout: 2 * time.Second, ReadTimeout: 10 * time.Second, PoolSize: 64})
 	return m, nil
@@ -564,6 +606,7 @@ func (m *vMember) memberlistUp(timeout time.Duration) (addr string, ok bool) {
 			}
 		}()
 		if addr != "" {
+			vRegisterLabel(addr, m)
 			return addr, true
 		}
 		time.Sleep(2 * time.Millisecond)
@@ -589,6 +632,7 @@ func (cl *vCluster) stop(m *vMember) {
 		return
 	}
 	m.alive = false
+	vMarkAlive(m.name, false)
 	ctx, cancel := context.WithTimeout(context.Background(), 5*time.Second)
 	_ = m.db.Shutdown(ctx)
 	cancel()
